@@ -6,11 +6,11 @@ HARNESSES = {
 
 def _runs(tier):
     if tier == "quick":
-        return [{"harness": "c17", "args": [], "budget": 200}]
+        return [{"harness": "c17", "args": [], "budget": 270}]
     return [{"harness": "c17", "args": [], "budget": 2400}]
 
 CHECKS = {
-    "C17": {"runs": _runs, "level": "model_checking", "deadline": {"quick": 280, "thorough": 2700},
+    "C17": {"runs": _runs, "level": "model_checking", "deadline": {"quick": 295, "thorough": 2700},
             "assumptions": [
                 "the value of an argument is what constraints()/congruences() of a twin built by the same recipe print (the conversions themselves are the subject of C01/C04/C05)",
                 "arguments unbounded in a wrapped variable are judged on the integer points of a sparse window only (necessary condition; counted separately)",
